@@ -643,7 +643,8 @@ def _new_postsel(w, o):
         ps = w.call(lw.PostSelection, o.get("multi", False))
         for modes, ns in o.get("rules", []):
             w.call(ps.add, tuple(modes), tuple(ns))
-        w.put("ps", o["out"], ps, pkind="rules")
+        w.put("ps", o["out"], ps, pkind="rules",
+              rules=[(tuple(m), tuple(n)) for m, n in o.get("rules", [])])
     else:
         ctl = {"calls": 0, "fail_at": None, "fired": 0}
         fn = make_predicate(w, o["pred"], ctl)
@@ -658,6 +659,10 @@ def _ps_add(w, o):
     m, n = o["modes"], o["n"]
     w.call(ps.add, tuple(m) if isinstance(m, list) else m,
            tuple(n) if isinstance(n, list) else n)
+    # only an *accepted* rule is recorded by the harness
+    w.m("ps", o["ps"])["rules"].append(
+        (tuple(m) if isinstance(m, list) else (m,),
+         tuple(n) if isinstance(n, list) else (n,)))
 
 
 @op("pred_fault")
